@@ -119,6 +119,20 @@ class _Fold(ast.NodeTransformer):
     def visit_Lambda(self, n):
         return n
 
+    def visit_Call(self, n):
+        n = self.generic_visit(n)
+        if isinstance(n.func, ast.Name) and n.func.id == "isinstance" and len(n.args) == 2 and not n.keywords and \
+                isinstance(n.args[1], ast.Name) and n.args[1].id == "object":
+            return ast.copy_location(ast.Constant(value=True), n)      # everything is an object
+        return n
+
+    def _comp(self, n):
+        n = self.generic_visit(n)
+        for g in n.generators:
+            g.ifs = [t for t in g.ifs if not (isinstance(t, ast.Constant) and t.value is True)]
+        return n
+    visit_ListComp = visit_SetComp = visit_GeneratorExp = visit_DictComp = _comp
+
 
 class _Sub(ast.NodeTransformer):
     def __init__(self, env):
